@@ -17,6 +17,7 @@ package main
 //                   fields (counter, slice, map) in every Receive
 
 import (
+	"context"
 	"fmt"
 	"sync"
 	"sync/atomic"
@@ -48,6 +49,7 @@ func init() {
 				{name: "engine-overlap", n: cN, perChild: cN / 16, timeout: 30 * time.Minute, env: chaos},
 				{name: "engine-race", n: d, perChild: d / 16, race: true, timeout: 30 * time.Minute, env: chaos},
 			}
+			ms = append(ms, modeSpec{name: "held-child", n: 4 * (1 + 3*b2int(tier == "thorough")), perChild: 1, timeout: 10 * time.Minute})
 			if tier == "thorough" {
 				for _, g := range []int{1, 2, 4} {
 					ms = append(ms, modeSpec{name: fmt.Sprintf("raw-overlap-p%d", g), n: a / 4, perChild: a / 64, gomaxprocs: g, timeout: 30 * time.Minute, env: chaos})
@@ -60,6 +62,8 @@ func init() {
 			switch {
 			case c.mode == "raw-sustained":
 				return c02Sustained(c)
+			case c.mode == "held-child":
+				return c02Held(c, false)
 			case len(c.mode) >= 8 && c.mode[:8] == "raw-race":
 				return c02Raw(c, true)
 			case len(c.mode) >= 3 && c.mode[:3] == "raw":
@@ -466,5 +470,160 @@ func c02Sustained(c *caseCtx) (res caseResult) {
 		res.Sample = map[string]any{"scenario": res.Desc}
 	}
 	in.Stop()
+	return res
+}
+
+// ---- held child: a parent is stopped while one of its children is inside a long Receive ----
+
+type heldLog struct {
+	inflight int32
+	overlaps int32
+	mu       sync.Mutex
+	evs      []string
+}
+
+type heldMsg struct {
+	entered chan struct{}
+	release chan struct{}
+}
+
+type heldChild struct{ lg *heldLog }
+
+func (a *heldChild) Receive(c *actor.Context) {
+	if atomic.AddInt32(&a.lg.inflight, 1) != 1 {
+		atomic.AddInt32(&a.lg.overlaps, 1)
+		a.lg.mu.Lock()
+		a.lg.evs = append(a.lg.evs, fmt.Sprintf("OVERLAP:%T", c.Message()))
+		a.lg.mu.Unlock()
+	}
+	defer atomic.AddInt32(&a.lg.inflight, -1)
+	a.lg.mu.Lock()
+	a.lg.evs = append(a.lg.evs, fmt.Sprintf("begin:%T", c.Message()))
+	a.lg.mu.Unlock()
+	if m, ok := c.Message().(heldMsg); ok {
+		close(m.entered)
+		<-m.release
+	}
+	a.lg.mu.Lock()
+	a.lg.evs = append(a.lg.evs, fmt.Sprintf("end:%T", c.Message()))
+	a.lg.mu.Unlock()
+}
+
+type heldParent struct {
+	kids []*heldLog
+}
+
+func (p *heldParent) Receive(c *actor.Context) {
+	if _, ok := c.Message().(actor.Started); ok {
+		for i, lg := range p.kids {
+			lg := lg
+			c.SpawnChild(func() actor.Receiver { return &heldChild{lg: lg} }, "kid", actor.WithID(fmt.Sprint(i)))
+		}
+	}
+}
+
+// c02Held: the parent is poisoned (or stopped) while child 0 is inside Receive for `hold`
+// (4 s quick, 12 s thorough: long against any patience a supervisor may have with its
+// children). However long a Receive takes, nothing else may be invoked on that actor
+// meanwhile - Stopped least of all - and afterwards each child gets Stopped exactly once.
+func c02Held(c *caseCtx, forC08 bool) (res caseResult) {
+	r := c.rng
+	wd := watchdog(c.tier)
+	hold := 4 * time.Second
+	if c.tier == "thorough" {
+		hold = 12 * time.Second
+	}
+	e, err := actor.NewEngine(actor.NewEngineConfig())
+	if err != nil {
+		res.inconclusive("engine: %v", err)
+		return
+	}
+	nK := 1 + r.Intn(3)
+	p := &heldParent{}
+	for i := 0; i < nK; i++ {
+		p.kids = append(p.kids, &heldLog{})
+	}
+	parent := e.Spawn(func() actor.Receiver { return p }, "hp", actor.WithID("p"))
+	kid0 := actor.NewPID("local", "hp/p/kid/0")
+	hm := heldMsg{entered: make(chan struct{}), release: make(chan struct{})}
+	e.Send(kid0, hm)
+	for i := 0; i < r.Intn(4); i++ {
+		e.Send(kid0, "queued behind the long one")
+	}
+	select {
+	case <-hm.entered:
+	case <-time.After(wd):
+		res.inconclusive("the child did not take up its message")
+		return
+	}
+	graceful := r.Intn(2) == 0
+	var ctx context.Context
+	if graceful {
+		ctx = e.Poison(parent)
+	} else {
+		ctx = e.Stop(parent)
+	}
+	res.Desc = fmt.Sprintf("held child: parent with %d children stopped (graceful=%v) while child 0 is inside Receive for %v", nK, graceful, hold)
+	select {
+	case <-ctx.Done():
+		// (C08's business: the child cannot have handled Stopped yet, or it did so inside its long Receive)
+		if forC08 {
+			lg0 := p.kids[0]
+			lg0.mu.Lock()
+			handled := false
+			for _, ev := range lg0.evs {
+				if ev == "end:actor.Stopped" {
+					handled = true
+				}
+			}
+			lg0.mu.Unlock()
+			if !handled {
+				res.violate("the parent's stop context became done while its child was still inside a Receive that began before the stop and had not handled Stopped (%s)", res.Desc)
+			}
+		}
+	case <-time.After(hold):
+	}
+	lg := p.kids[0]
+	lg.mu.Lock()
+	during := append([]string(nil), lg.evs...)
+	lg.mu.Unlock()
+	close(hm.release)
+	select {
+	case <-ctx.Done():
+	case <-time.After(wd):
+		res.inconclusive("the parent did not stop after the child was released")
+		return
+	}
+	if forC08 {
+		res.Sig = sigHash("directed", 4, nK, graceful)
+		return res
+	}
+	if o := atomic.LoadInt32(&lg.overlaps); o > 0 {
+		res.violate("%d invocation(s) of the child's Receive began while its long Receive was still running (log of the child while held: %v) (%s)", o, during, res.Desc)
+	}
+	for i, k := range p.kids {
+		k.mu.Lock()
+		stopped := 0
+		for _, ev := range k.evs {
+			if ev == "begin:actor.Stopped" {
+				stopped++
+			}
+		}
+		last := ""
+		if len(k.evs) > 0 {
+			last = k.evs[len(k.evs)-1]
+		}
+		k.mu.Unlock()
+		if stopped != 1 {
+			res.violate("child %d handled Stopped %d times", i, stopped)
+		} else if last != "end:actor.Stopped" {
+			res.violate("child %d: something was invoked after Stopped (%s)", i, last)
+		}
+	}
+	res.count("held_seconds", int64(hold/time.Second))
+	res.Sig = sigHash("held", nK, graceful)
+	if c.n < 1 || res.Verdict == vViolated {
+		res.Sample = map[string]any{"scenario": res.Desc, "child_log_while_held": during}
+	}
 	return res
 }
